@@ -100,6 +100,15 @@ def generate(prop, rng, index, tier):
         elif r < 0.55 and c["dtype"] == "int":
             rd["dtype"] = "Integer"
         reads.append(rd)
+    # a value one unit in the last place away from the declared missing value is a value, not a missing cell
+    import math
+    for rd in reads:
+        c = cols[rd["col"]]
+        if rd["missing"] is not None and c["dtype"] == "float" and nrows >= 2 and rng.random() < 0.4:
+            mv = _val(rd["missing"])
+            r2 = rng.randrange(nrows)
+            if math.isfinite(mv) and not c["mask"][r2]:
+                c["values"][r2] = _hex(math.nextafter(mv, math.inf if rng.random() < 0.5 else -math.inf))
     for rd in reads:
         rd["phase"] = "pre" if rng.random() < 0.3 else "post"
         rd["spelling"] = rng.choice(["abs", "rel", "dot", "dotdot"])
